@@ -228,6 +228,51 @@ class SMatrix(Model):
         self.arr = z3.Array(it.ctx._name(hint), I, I, Expr)
 
 
+class SMatList(Model):
+    """python list of equally shaped sympy matrices with symbolic length: cell(e, a, b)"""
+    tags = frozenset({'list'})
+
+    def __init__(self, length, rows, cols, cell):
+        self.length, self.rows, self.cols, self.cell = length, rows, cols, cell
+
+    def py_len(self, it):
+        return self.length
+
+    def py_getitem(self, it, idx):
+        k = norm_index(it, idx, self.length)
+        it.ctx.oblige("safety/index-in-range", z3.And(k >= 0, k < to_num(self.length)))
+        i, j = z3.Int('li'), z3.Int('lj')
+        c = self.cell
+        return SMatrix(self.rows, self.cols, z3.Lambda([i, j], c(k, i, j)))
+
+    def py_getattr(self, it, name):
+        if name == 'append':
+            def app(it_, a, k):
+                m = a[0]
+                if not isinstance(m, SMatrix):
+                    raise Unsupported("append of %r to a matrix list" % (m,))
+                if self.rows is None:
+                    self.rows, self.cols = m.rows, m.cols
+                else:
+                    it_.ctx.oblige("safety/matrices-have-equal-shape", z3.And(to_num(m.rows) == to_num(self.rows), to_num(m.cols) == to_num(self.cols)))
+                old, L, arr = self.cell, to_num(self.length), m.arr
+                self.cell = lambda e, a_, b_: z3.If(e == L, z3.Select(arr, a_, b_), old(e, a_, b_))
+                self.length = z3.simplify(L + 1)
+            return Builtin('list.append', app)
+        raise Unsupported("list method %s on a matrix list" % name)
+
+    def havoc_inplace(self, it, hint):
+        n = it.ctx.fresh_int(hint + "_len")
+        it.ctx.assume(n >= 0)
+        f = it.ctx.fresh_func(hint, I, I, I, Expr)
+        self.length, self.cell = n, (lambda e, a, b: f(e, a, b))
+
+    def fresh_like(self, it, hint):
+        m = SMatList(0, self.rows, self.cols, None)
+        m.havoc_inplace(it, hint)
+        return m
+
+
 def build(lib):
     def zeros(it, a, k):
         axioms(it)
